@@ -186,10 +186,25 @@ const KEYS: &[&[u8]] = &[
     b"-h", b"--", b"cmd", b"\"\"",
 ];
 
-fn pick_keys(r: &mut Rng, n: usize) -> Vec<u8> {
+#[derive(Clone, Debug)]
+enum Step {
+    Byte(u8),
+    SetPrompt(&'static str),
+    Write(Vec<&'static str>),
+}
+
+fn pick_keys(r: &mut Rng, n: usize) -> Vec<Step> {
     let mut v = Vec::new();
     for _ in 0..n {
-        v.extend_from_slice(KEYS[r.below(KEYS.len())]);
+        match r.below(24) {
+            0 => v.push(Step::SetPrompt(["> ", "", "cli# "][r.below(3)])),
+            1 => v.push(Step::Write([vec!["msg"], vec!["a\nb\n"], vec![], vec!["x", "\n", "y"], vec![""]][r.below(5)].clone())),
+            _ => {
+                for &b in KEYS[r.below(KEYS.len())] {
+                    v.push(Step::Byte(b));
+                }
+            }
+        }
     }
     v
 }
@@ -229,7 +244,8 @@ fn one_session(r: &mut Rng, it: usize, only: &str) -> Option<Cex> {
     let cbuf: &'static mut [u8] = Box::leak(vec![0u8; cap].into_boxed_slice());
     let hbuf: &'static mut [u8] = Box::leak(vec![0u8; hcap].into_boxed_slice());
     let prompt: &'static str = if it % 2 == 0 { "$ " } else { "" };
-    let built = CliBuilder::default().writer(sink.clone()).command_buffer(cbuf).history_buffer(hbuf).prompt(prompt).build();
+    let prompt0 = prompt;
+    let built = CliBuilder::default().writer(sink.clone()).command_buffer(cbuf).history_buffer(hbuf).prompt(prompt0).build();
     let mut trace = format!("cmd_buf={} hist_buf={} prompt={:?} fail_at_op={:?} keys=", cap, hcap, prompt, sink.0.borrow().fail_at);
     let mut cli = match built {
         Ok(c) => c,
@@ -261,11 +277,96 @@ fn one_session(r: &mut Rng, it: usize, only: &str) -> Option<Cex> {
             return Some(Cex { input: trace, expected: "flush after the initial prompt".into(), actual: format!("{:?}", evs) });
         }
     }
-    for &b in &keys {
-        write!(trace, "\\x{:02x}", b).unwrap();
-        let ev = dec.step(b);
+    let mut prompt: &'static str = prompt;
+    for step in &keys {
         let n_evs_before = sink.0.borrow().evs.len();
         let failed_before = sink.0.borrow().failed;
+        let b = match step {
+            Step::Byte(b) => *b,
+            other => {
+                // API calls between keys: prompt change, application output while a line is being edited
+                write!(trace, " {:?} ", other).unwrap();
+                let (res, exp_delta) = match other {
+                    Step::SetPrompt(p) => {
+                        prompt = p;
+                        (cli.set_prompt(p), None)
+                    }
+                    Step::Write(parts) => {
+                        let res = cli.write(|w| {
+                            for t in parts {
+                                w.write_str(t)?;
+                            }
+                            Ok(())
+                        });
+                        let mut e = b"\r\x1b[2K".to_vec();
+                        let mut body = Vec::new();
+                        for t in parts {
+                            body.extend(crate::writer_driver::lf_to_crlf(t));
+                        }
+                        e.extend(&body);
+                        if !body.is_empty() && *body.last().unwrap() != b'\n' {
+                            e.extend(b"\r\n");
+                        }
+                        e.extend(prompt.as_bytes());
+                        e.extend(m.text().as_bytes());
+                        (res, Some(e))
+                    }
+                    Step::Byte(_) => unreachable!(),
+                };
+                let st = sink.0.borrow();
+                let delta: Vec<SinkEv> = st.evs[n_evs_before..].to_vec();
+                let failed_now = st.failed > failed_before;
+                drop(st);
+                if failed_now != res.is_err() && want(only, "C14") {
+                    return Some(Cex { input: trace, expected: format!("Err iff the sink failed ({})", failed_now), actual: format!("{:?}", res.is_ok()) });
+                }
+                if failed_now {
+                    desync = true;
+                    continue;
+                }
+                if let Some(e) = exp_delta {
+                    let a = bytes_of(&delta);
+                    // what follows the redisplayed line may only move the cursor
+                    if !a.starts_with(&e) && want(only, "C13") {
+                        return Some(Cex { input: trace, expected: format!("sink receives {}", esc(&e)), actual: esc(&a) });
+                    }
+                }
+                if !delta.is_empty() && delta.last() != Some(&SinkEv::F) && want(only, "C15") {
+                    return Some(Cex { input: trace, expected: "last sink operation of the call is a flush".into(), actual: format!("{:?}", delta) });
+                }
+                let (rt, rc) = {
+                    let e = cli.editor.as_ref().expect("editor present");
+                    (e.text().to_string(), e.cursor())
+                };
+                if (rt.clone(), rc) != (m.text(), m.cur) && (want(only, "C13") || want(only, "C05")) {
+                    return Some(Cex { input: trace, expected: format!("line {:?} cursor {} untouched", m.text(), m.cur), actual: format!("line {:?} cursor {}", rt, rc) });
+                }
+                if !desync && want(only, "C06") {
+                    let all = bytes_of(&sink.0.borrow().evs);
+                    if let Ok(s) = std::str::from_utf8(&all[fed..]) {
+                        if term.feed(s).is_ok() {
+                            fed = all.len();
+                            let e = (prompt.to_string() + &rt).trim_end_matches(' ').to_string();
+                            let ecol = prompt.chars().count() + rc;
+                            if term.shown() != e || term.col != ecol {
+                                return Some(Cex {
+                                    input: trace,
+                                    expected: format!("terminal line {:?} cursor column {}", e, ecol),
+                                    actual: format!("terminal line {:?} cursor column {}", term.shown(), term.col),
+                                });
+                            }
+                        } else {
+                            desync = true;
+                        }
+                    } else {
+                        desync = true;
+                    }
+                }
+                continue;
+            }
+        };
+        write!(trace, "\\x{:02x}", b).unwrap();
+        let ev = dec.step(b);
         let before = (m.text(), m.cur);
         #[cfg(feature = "history")]
         let hist_before = m.hist.clone();
